@@ -34,8 +34,8 @@ PROPS = {
     },
     'C03': {
         'streams': [S('C03', 1500, 30000)],
-        'explanation': 'theorems (whole engine, Proofs/EngineNI.v): for any two errors that differ only in the CONTENT of unsafe strings (every unsafe position of the model, hidden errors included; same line shape), Redact() of the %v/%s and of the %+v rendering is the same; the needed refinement of "shape" (lines of 0/1/2+ bytes for strings the engine writes itself) is witnessed: a one-bit-per-line length side channel, not content; theorems (Proofs/DetailsNI.v): GetSafeDetails / GetAllSafeDetails, the whole Sentry report record and the reportable part (type names + reportable payload) of every node of the wire encoding are equal for two such errors (C03_safe_details, C03_report, C03_wire_reportable); the two positions where an encoder declares reportable what the formatter prints as an unsafe argument (HTTP status code, foreign errno text) are witnessed; theorems (Proofs/ApiNI.v), on the INPUT of the public API: two constructor expressions related by req (same constructors, safe inputs equal, unsafe inputs arbitrary with the same line shape) build errors with the same redacted %v / %s for arbitrary bytes (C03_api_short) and the same redacted %+v, safe details, report and reportable wire payload under strs_ok / stacks_ok (C03_api_outputs); every exclusion of the fragment and every extra clause of req is witnessed. Correspondence on hostile strings: redactable %v/%+v, safe details, wire message, Sentry report of model vs implementation, local / knowing hops / unknowing hop; Go relation: no unsafe token in any PII-free output',
-        'not_yet_proved': ['pairs of constructor expressions outside the fragment ni_frag (transfers, stdlib Join, full-message user wrappers, error arguments that are not last in a message format): decided by the correspondence and the Go relation'],
+        'explanation': 'theorems (whole engine, Proofs/EngineNI.v): for any two errors that differ only in the CONTENT of unsafe strings (every unsafe position of the model, hidden errors included; same line shape), Redact() of the %v/%s and of the %+v rendering is the same; the needed refinement of "shape" (lines of 0/1/2+ bytes for strings the engine writes itself) is witnessed: a one-bit-per-line length side channel, not content; theorems (Proofs/DetailsNI.v): GetSafeDetails / GetAllSafeDetails, the whole Sentry report record and the reportable part (type names + reportable payload) of every node of the wire encoding are equal for two such errors (C03_safe_details, C03_report, C03_wire_reportable); the two positions where an encoder declares reportable what the formatter prints as an unsafe argument (HTTP status code, foreign errno text) are witnessed; theorems (Proofs/ApiNI.v), on the INPUT of the public API: two constructor expressions related by req (same constructors, safe inputs equal, unsafe inputs arbitrary with the same line shape) build errors with the same redacted %v / %s for arbitrary bytes (C03_api_short) and the same redacted %+v, safe details, report and reportable wire payload under strs_ok / stacks_ok (C03_api_outputs); every exclusion of the fragment and every extra clause of req is witnessed; across transfers (Proofs/ApiNITransfer.v): the engine theorems hold for the weaker relation ueqT (opaque nodes related only in what the engine reads), decoding through any process maps encT-related wire messages to ueqT-related errors (C03_transfer_decode), and no relation containing ueq is both hop-closed and sufficient (C03_transfer_no_uniform_relation). Correspondence on hostile strings: redactable %v/%+v, safe details, wire message, Sentry report of model vs implementation, local / knowing hops / unknowing hop; Go relation: no unsafe token in any PII-free output',
+        'not_yet_proved': ['pairs of constructor expressions outside the fragment ni_frag (stdlib Join, full-message user wrappers, error arguments that are not last in a message format), and for transfers the encoding half (related errors have encT-related encodings: evaluated on 60 process lists, not proved): decided by the correspondence and the Go relation'],
         'assumptions': [ASSUME_UNIVERSE],
     },
     'C04': {
@@ -81,7 +81,7 @@ PROPS = {
     },
     'C12': {
         'streams': [S('C12', 1500, 30000)],
-        'explanation': 'theorems (Proofs/SafeRetained.v): an ASCII literal or Safe() argument is a substring of the safe detail of its message layer whatever the other arguments; EVERY safe detail declared by ANY layer (chain, behind barriers, in secondary errors, any depth) is in GetAllSafeDetails (indented per hiding level), with channel instances (telemetry keys, domains, issue links, tag keys) and after k hops for exact trees; the report message contains the redacted verbose rendering and every layer type line; what is not retained is stated by witnesses. Correspondence: Sentry report and safe details model vs implementation; Go relation: every safe-channel token is in the report or in GetAllSafeDetails, locally and after knowing hops',
+        'explanation': 'theorems (Proofs/SafeRetained.v): an ASCII literal or Safe() argument is a substring of the safe detail of its message layer whatever the other arguments; EVERY safe detail declared by ANY layer (chain, behind barriers, in secondary errors, any depth) is in GetAllSafeDetails (indented per hiding level), with channel instances (telemetry keys, domains, issue links, tag keys) and after k hops for exact trees; the report message contains the redacted verbose rendering and every layer type line; what is not retained is stated by witnesses; theorems (Proofs/ApiRetained.v), on constructor expressions: every ASCII string of safe_inputs r (computed from the expression alone; nil sub-expressions and Mark references excluded) is verbatim in GetAllSafeDetails / the report (C12_api_retained, C12_api_in_details), constructors that print an error argument without attaching it are witnessed (C12_api_arguments_not_attached). Correspondence: Sentry report and safe details model vs implementation; Go relation: every safe-channel token is in the report or in GetAllSafeDetails, locally and after knowing hops',
         'not_yet_proved': ['retention after hops for trees outside exact_tree / through processes that do not know the secondary-error type (false in general: witness secondary_details_need_the_decoder)'],
         'assumptions': [ASSUME_UNIVERSE, 'channels as listed by the property statement'],
     },
